@@ -124,6 +124,8 @@ func init() {
 	register("C01", "A-FOLD", ruleAFold)
 	register("C10", "A-FOLD", ruleAFold)
 	register("C12", "A-FOLD", ruleAFold)
+	register("C12", "C12-SELF", ruleEvalSelf)
+	register("C02", "N-DEPTH", ruleNDepth) // [.//x] predicates: the subtree walk stays inside the candidate
 	register("C12", "B-HASH", ruleBHash)   // a union consumed through MoveNext: both operands evaluated from the start node
 	register("C12", "S-CLONE", ruleSClone) // every Select/Evaluate starts from a private, complete copy of the tree
 	register("C11", "S-CLONE", ruleSClone)
@@ -131,7 +133,9 @@ func init() {
 	register("C03", "S-CLONE", ruleSClone)
 	register("C15", "C12-EVAL", ruleExprEvaluate) // the exported Evaluate hands out documented result types only
 	register("C13", "A-FOLD", ruleAFold)
+	register("C13", "C03-LAST", ruleSiblingCounters) // position()/last() leave the context where it was
 	register("C10", "G-PATH", ruleGPath)
+	register("C10", "C08-LIT", ruleNumLiteral) // token rules: a number literal is the characters of its token
 	register("C17", "G-PATH", ruleGPath)
 	register("C03", "A-SMART", ruleASmart)
 	register("C03", "S-RESET", ruleSReset)
